@@ -7,6 +7,11 @@ use std::sync::atomic::{AtomicBool, AtomicUsize, Ordering as AO};
 use std::sync::Arc;
 
 /// One observed call into user code (or into a wrapped heuristic).
+/// The order on thresholds the property states: by value, then 'explored' above 'not explored'. Written
+/// out here on purpose: the oracles must not inherit the order `Threshold` derives in the library.
+pub fn tkey(t: &Threshold) -> (isize, bool) {
+    (t.value, t.explored)
+}
 #[derive(Clone, Debug, PartialEq)]
 pub enum Ev<S> {
     NextVar { depth: usize, states: Vec<S>, ret: Option<usize> },
